@@ -543,6 +543,52 @@ def r02_11(ctx):
     ctx.floor("R02.11", "row-situations-compared", n, 700)
 
 
+def r02_12(ctx):
+    """the rules for parsing tokens in foreign content (13.2.6.5) and the helpers that insert foreign elements"""
+    key, pcs = nfq.cells(ctx, TB, "rules::TreeBuilder<Handle,Sink>::step_foreign")
+    pcs = nfq.feasible(pcs)
+    n = 0
+
+    def row(name, pred, want, why):
+        nonlocal n
+        hit = [pc for pc in pcs if pred(pc["guards"])]
+        n += 1
+        got = sorted({tuple(x for x in nfq.names(pc) if x not in ("self.unexpected", "self.sink.parse_error", "call any_not_whitespace", "local.to_tendril")) for pc in hit})
+        ok = bool(hit) and got == [tuple(want)]
+        ctx.ob("R02.12", "foreign-row/" + name, ok, why if ok else "foreign content, %s: the standard prescribes %s, the code does %s" % (name, want, got), "html5ever tree_builder rules.rs step_foreign")
+
+    T = lambda g, sub: any(v and sub in k for k, v in g.items())
+    F = lambda g, sub: any((not v) and sub in k for k, v in g.items())
+    row("NUL", lambda g: T(g, "p1 matches NullCharacter"), ["self.append_text"], "U+0000 -> parse error, insert U+FFFD")
+    nul = [pc for pc in pcs if T(pc["guards"], "p1 matches NullCharacter")]
+    ctx.ob("R02.12", "foreign-row/NUL-inserts-U+FFFD", bool(nul) and all("\ufffd" in " ".join(nfq.texts(pc)) for pc in nul), "the inserted character is U+FFFD")
+    row("whitespace", lambda g: T(g, "p1 matches Characters(") and g.get("any_not_whitespace(p1.1)") is False, ["self.append_text"], "whitespace -> insert the character")
+    row("characters", lambda g: T(g, "p1 matches Characters(") and g.get("any_not_whitespace(p1.1)") is True, ["set self.frameset_ok", "self.append_text"], "other characters -> insert, frameset-ok = not ok")
+    row("comment", lambda g: T(g, "p1 matches Comment("), ["self.append_comment"], "comment -> insert a comment")
+    row("breakout-start-tag", lambda g: T(g, "name:atom:blockquote"), ["self.unexpected_start_tag_in_foreign_content"], "break-out tags -> pop to an HTML / integration-point element and reprocess")
+    row("font-with-color-face-size", lambda g: T(g, "name:atom:font})") and T(g, "p1.0.attrs.iter().any("), ["self.unexpected_start_tag_in_foreign_content"], "font with color/face/size breaks out")
+    row("font-without", lambda g: T(g, "name:atom:font})") and F(g, "p1.0.attrs.iter().any("), ["self.foreign_start_tag"], "font without them is an ordinary foreign start tag")
+    row("any-other-start-tag", lambda g: T(g, "p1 matches Tag(Tag{kind:StartTag})"), ["self.foreign_start_tag"], "any other start tag -> insert a foreign element")
+    # helpers
+    for fn, nsguard in (("::foreign_start_tag", "self.sink.elem_name(self.adjusted_current_node()).ns() matches "), ("::enter_foreign", "p2 matches ")):
+        key, hp = nfq.cells(ctx, TB, fn)
+        for pc in nfq.feasible(hp):
+            g = pc["guards"]
+            ns = "mathml" if any(v and "MathML" in k and k.startswith(nsguard) for k, v in g.items()) else "svg" if any(v and "2000/svg" in k and k.startswith(nsguard) for k, v in g.items()) else "other"
+            names = [x for x in nfq.names(pc) if x.startswith("self.adjust_") or x == "self.insert_element"]
+            want = {"mathml": ["self.adjust_mathml_attributes", "self.adjust_foreign_attributes", "self.insert_element"],
+                    "svg": (["self.adjust_svg_tag_name"] if fn == "::foreign_start_tag" else []) + ["self.adjust_svg_attributes", "self.adjust_foreign_attributes", "self.insert_element"],
+                    "other": ["self.adjust_foreign_attributes", "self.insert_element"]}[ns]
+            sc = g.get("p1.self_closing")
+            ins = [t for t in nfq.texts(pc) if t.startswith("self.insert_element(")]
+            push_ok = len(ins) == 1 and ins[0].startswith("self.insert_element(NoPush," if sc else "self.insert_element(Push,") and (str(pc["ret"]) == ("DoneAckSelfClosing" if sc else "Done"))
+            n += 1
+            ctx.ob("R02.12", "foreign-insert/%s/%s/%s" % (fn.strip(":"), ns, "self-closing" if sc else "open"), names == want and push_ok,
+                   "adjustments %s, then insert%s" % (want[:-1], " + pop + acknowledge" if sc else "") if names == want and push_ok else "%s in a %s context does %s / %s -> %s" % (fn.strip(":"), ns, names, ins, pc["ret"]),
+                   "html5ever tree_builder " + fn.strip(":"))
+    ctx.floor("R02.12", "foreign-facts", n, 19)
+
+
 def r02_8(ctx):
     from lib import dispatchcmp
     cur = nf_common.area_current(ctx, TB)
@@ -565,6 +611,8 @@ def r02_8(ctx):
 def run(ctx):
     ctx.rule("R02.8", "tag dispatch of every insertion mode and of foreign content equals the independent transcription of the standard's rows: one handling per row, unlisted names handled like a fresh name, rows distinct except where the standard says 'act as anything else'")
     ctx.guard("R02.8", "dispatch", lambda: r02_8(ctx))
+    ctx.rule("R02.12", "foreign content: character / comment / break-out / font / other-start-tag rows and the attribute adjustments + insertion of foreign elements are the standard's")
+    ctx.guard("R02.12", "foreign", lambda: r02_12(ctx))
     ctx.rule("R02.11", "every row of every insertion mode performs the steps the standard prescribes, under the conditions it prescribes (independent transcription ref/whatwg_rows.py; helper calls = steps; parse errors excluded)")
     ctx.guard("R02.11", "rows", lambda: r02_11(ctx))
     ctx.rule("R02.10", "reset the insertion mode appropriately: element name and last flag select the mode the standard lists")
